@@ -100,6 +100,9 @@ def main(argv=None):
         proof = {"obligations": 0, "discharged": 0, "theorems": [], "assumptions": {}, "problems": [], "built": True}
     else:
         proof = C.build_props(prop)
+        if tier == "thorough" and proof["built"] and not args.replay and not os.environ.get("SFV_NO_COQCHK"):
+            proof["coqchk"], chk_problems = C.run_coqchk(prop)
+            proof["problems"].extend(chk_problems)
 
     # ---- steps 2-4
     rng = random.Random(seed * 1000003 + 17)
@@ -255,6 +258,7 @@ def main(argv=None):
             "Python->Coq term printer, canonicalisers" % prop.lower(),
         ] + list(getattr(mod, "TRUSTED", [])),
         "theorems": proof["theorems"],
+        "coqchk": proof.get("coqchk", "not run in the quick tier (thorough tier runs coqchk -o on the property's .vo closure)"),
         "programs": len(cases),
         "disagreements_checked": n_terms,
         "disagreements_found": len(real_dis),
